@@ -305,6 +305,8 @@ class Scene(Geometry3D):
         # hash of geometry and transforms
         # start with the last modified time of the scene graph
         hashable = [hex(self.graph.transforms.__hash__())]
+        # every cached value is relative to the base frame
+        hashable.append(str(self.graph.base_frame))
         # take the re-hex string of the hash
         hashable.extend(hex(geometry[k].__hash__()) for k in geometry.keys())
         return caching.hash_fast("".join(hashable).encode("utf-8"))
